@@ -76,7 +76,7 @@ def run(ctx):
             want = {
                 "pc": r"^AddWithOverflow\(<env>\._ref__pc, 1\)\.0$",
                 "stack": r"^<essential_vm::stack::Stack as std::clone::Clone>::clone\(<env>\._ref__stack\)$",
-                "memory": r"^(essential_vm::memory::Memory::new\(\)|<essential_vm::memory::Memory as std::default::Default>::default\(\))$",
+                "memory": r"^(essential_vm::memory::Memory::new\(\)|<essential_vm::memory::Memory as std::default::Default>::default\(\)|<essential_vm::vm::Vm as std::default::Default>::default\(\)\.memory)$",
                 "parent_memory": r"^<std::vec::Vec<T, A> as std::clone::Clone>::clone\(<env>\._ref__parent_memory\)$",
                 "repeat": r"^<essential_vm::repeat::Repeat as std::clone::Clone>::clone\(<env>\._ref__repeat\)$",
                 "cache": r"^<std::sync::Arc<T, A> as std::clone::Clone>::clone\(<env>\._ref__cache\)$",
